@@ -19,6 +19,7 @@ package hx
 // the process: C06/C07 repairs; they are generated and compared since).
 
 import (
+	"strings"
 	"encoding/json"
 	"fmt"
 	"math"
@@ -141,8 +142,22 @@ func (s *c19State) exec(op map[string]interface{}) (obs map[string]interface{}) 
 	}
 	// 1. the rows the aggregate step is given: the same traversal without aggregate()
 	pb, _ := json.Marshal(preJ)
+	// "mark": the aggregations read the element marked `mark` (fields spelled `$mark.f` in the real
+	// request): the rows the MODEL aggregates are those of the same traversal ending in select(mark)
+	mark, _ := op["mark"].(string)
+	if mark != "" {
+		pb, _ = json.Marshal([]interface{}{preJ, "select", mark})
+	}
 	if s.pkey != string(pb) {
-		in := e.RunQuery(g, pre, 20*time.Second)
+		rowsQ := pre
+		if mark != "" {
+			var err error
+			rowsQ, err = StmtsFromJSON(append(append([]interface{}{}, preJ...), map[string]interface{}{"select": map[string]interface{}{"marks": []interface{}{mark}}}))
+			if err != nil {
+				return map[string]interface{}{"bad": "select: " + err.Error()}
+			}
+		}
+		in := e.RunQuery(g, rowsQ, 20*time.Second)
 		if in.Err != nil || in.TimedOut || in.Panic != "" {
 			return map[string]interface{}{"err": "pre"}
 		}
@@ -162,7 +177,19 @@ func (s *c19State) exec(op map[string]interface{}) (obs map[string]interface{}) 
 	sizes := map[string]float64{}
 	for _, a := range op["aggs"].([]interface{}) {
 		am := a.(map[string]interface{})
-		aggsJ = append(aggsJ, c19AggToPB(am))
+		if mark != "" {
+			// the same aggregation, addressed to the marked element
+			cp := map[string]interface{}{}
+			for k, v := range am {
+				cp[k] = v
+			}
+			if f, ok := cp["field"].(string); ok {
+				cp["field"] = "$" + mark + "." + strings.TrimPrefix(f, "$.")
+			}
+			aggsJ = append(aggsJ, c19AggToPB(cp))
+		} else {
+			aggsJ = append(aggsJ, c19AggToPB(am))
+		}
 		kinds[am["name"].(string)] = am["kind"].(string)
 		if am["kind"] == "term" {
 			sizes[am["name"].(string)] = c19Num(am["size"])
@@ -383,7 +410,21 @@ func c19CaseSized(r *Run, size int) map[string]interface{} {
 	default:
 		pre = []interface{}{map[string]interface{}{"v": []interface{}{}}}
 	}
-	return map[string]interface{}{"op": "agg", "verts": verts, "edges": edges, "pre": pre}
+	res := map[string]interface{}{"op": "agg", "verts": verts, "edges": edges, "pre": pre}
+	if size < 0 && rng.Intn(5) == 0 {
+		// the aggregations read a MARKED element some steps back (an edge or a vertex), not the current one
+		e0 := []interface{}{}
+		switch rng.Intn(3) {
+		case 0:
+			res["pre"] = []interface{}{map[string]interface{}{"e": e0}, map[string]interface{}{"as": "a"}, map[string]interface{}{"out": e0}}
+		case 1:
+			res["pre"] = []interface{}{map[string]interface{}{"v": e0}, map[string]interface{}{"outE": e0}, map[string]interface{}{"as": "a"}, map[string]interface{}{"out": e0}}
+		default:
+			res["pre"] = []interface{}{map[string]interface{}{"v": e0}, map[string]interface{}{"as": "a"}, map[string]interface{}{"out": e0}}
+		}
+		res["mark"] = "a"
+	}
+	return res
 }
 
 var c19Fields = []string{"x", "x", "x", "x", "y", "o.k", "o", "_data", "_gid", "_label", "$.x", "nope", "_from"}
@@ -488,6 +529,9 @@ func (s *c19State) run(r *Run, op map[string]interface{}) {
 	// the rows of the prefix decide whether a histogram is safe to run: compute them first
 	probe := map[string]interface{}{"op": "agg", "verts": op["verts"], "edges": op["edges"], "pre": op["pre"],
 		"aggs": []interface{}{}, "rowsonly": true}
+	if m, ok := op["mark"]; ok {
+		probe["mark"] = m
+	}
 	s.exec(probe)
 	op["rows"] = probe["rows"]
 	if op["rows"] == nil {
@@ -529,6 +573,10 @@ func c19Gen(r *Run) {
 		}
 		for k := 0; k < per; k++ {
 			op := map[string]interface{}{"op": "agg", "verts": base["verts"], "edges": base["edges"], "pre": base["pre"]}
+			if m, ok := base["mark"]; ok {
+				op["mark"] = m
+				r.Count("pre:marked-element")
+			}
 			var na int
 			switch {
 			case k == 0:
@@ -540,6 +588,9 @@ func c19Gen(r *Run) {
 			}
 			probe := map[string]interface{}{"op": "agg", "verts": op["verts"], "edges": op["edges"], "pre": op["pre"],
 				"aggs": []interface{}{}, "rowsonly": true}
+			if m, ok := op["mark"]; ok {
+				probe["mark"] = m
+			}
 			s.exec(probe)
 			prows, _ := probe["rows"].([]interface{})
 			op["aggs"] = c19Aggs(r, allNames[:na], prows)
